@@ -517,6 +517,9 @@ void libxmp_process_fx(struct context_data *ctx, struct channel_data *xc, int ch
 	    fx_s3m_bpm: {
 		/* Lower time factor in MED allows lower BPM values */
 		int min_bpm = (int)(0.5 + m->time_factor * XMP_MIN_BPM / 10);
+		/* fxp is a byte: keep the minimum inside 1..255 so that the
+		 * clamp can neither truncate to 0 nor leave a parameter of 0 */
+		CLAMP(min_bpm, 1, 255);
 		if (fxp < min_bpm)
 			fxp = min_bpm;
 		p->bpm = fxp;
